@@ -574,7 +574,8 @@ def p_c11(tr, V, st):
 
 
 def p_c12(tr, V, st):
-    """connection attempts of one device with no client enqueue on it in between are >= 1 s apart;
+    """connection attempts (for a host with several addresses: one attempt = one walk over the list) of one device with no client
+    enqueue on it in between are >= 1 s apart;
     when a device's queue is failed every client action in it is reported (pending bookkeeping via C04)"""
     last = {}
     prevq = {}
@@ -591,8 +592,12 @@ def p_c12(tr, V, st):
         if any(fd < 2000 and n > 0 for fd, n in p.reads.items()):
             for di in list(last): last[di] = (last[di][0], True)
             prevq[di] = d.get('queue', [])
-        for l in [l for l in p.sys if l[0] in ('socket', 'socketpair')]:
-            di = 0 if l[0] == 'socket' else 1      # mixp: the tcp device is 0, the coprocess 1
+        # one attempt of a tcp device = one walk over its address list (tcp_connect starts at the first address: the harness reports
+        # the address index of every connect()); of a coprocess device = one socketpair
+        starts = [di for di, ix in p.connects if ix == 0] + [1 for l in p.sys if l[0] == 'socketpair']      # mixp: the coprocess is device 1
+        for di, ix in p.connects:
+            if ix > 0: st['C12 connect() calls on a further address of the same attempt'] += 1
+        for di in starts:
             st['C12 connection attempts'] += 1
             if di in last:
                 t0, expedited = last[di]
